@@ -158,3 +158,9 @@ def scale(c, rm):
             return 1
     p, q, k = kappa_of(cs, ax, ay)
     return min(k * k, 1 << 20)
+
+
+def gen_q(rng, tier):
+    """exact-rational cases: see qgen.py"""
+    from . import qgen
+    return qgen.conditionals(rng, tier, ops=('inverse', 'abduce', 'abduce_with'))
